@@ -113,6 +113,11 @@ def run(rep):
              'accessors', floor=5)
     rep.rule('R16.3', 'the underlying registries invalidate after every '
              'storage write (queries see the listed registrations)', floor=8)
+    rep.rule('R16.4', 'the underlying registries keep their provided-count and '
+             'extendor index exact: an interface leaves the index exactly when '
+             'its count over ALL registrations reaches zero (shared with C07 '
+             'R07.5 / C09 R09.6); otherwise live registrations for it stop '
+             'answering while still being listed', floor=4)
     rep.decline('"every query answers as registries holding exactly the listed '
                 'registrations" and "rebuildUtilityRegistryFromLocalCache finds '
                 'nothing to repair" for arbitrary histories')
@@ -391,3 +396,10 @@ def run(rep):
     from .C05 import inv1
     table = ClassTable(repo, ['adapter.py'])
     inv1(rep, amod, table, rule='R16.3')
+
+    # ---- R16.4 --------------------------------------------------------------------
+    from . import mutators
+    mutators.extendor_transitions(rep, 'R16.4', amod, 'register', 'add')
+    mutators.extendor_transitions(rep, 'R16.4', amod, 'subscribe', 'add')
+    mutators.extendor_transitions(rep, 'R16.4', amod, 'unregister', 'remove')
+    mutators.extendor_transitions(rep, 'R16.4', amod, 'unsubscribe', 'remove')
